@@ -122,6 +122,7 @@ type run struct {
 	cfg                     interp.Config
 	runRe                   *regexp.Regexp
 	known                   []knownFinding
+	tieBreakNotes           int
 }
 
 type harnessFile struct {
